@@ -531,3 +531,79 @@ def _cache_replay_plan(ob):
     pairs.append((['alice', 'pw'], ['alice', 'pw']))
     cases = [{'driver': 'cache', 'args': {'timeout': i.get('cache_timeout_secs', 300) or 300, 'set': a, 'check': b, 'verdict': True}} for a, b in pairs]
     return 'auth', cases, lambda o: o.get('hit') is not None and (o.get('hit') != o.get('same'))
+
+
+# =========================================================================== hand-over of a buffered stream to the inline frame channel
+
+def spec_frame_channel_handover(ck):
+    """HTTP `Proxy-Channel: inline`: after the head has been parsed through a BufReader, the SAME connection carries frames.
+    Bytes the peer sent right behind the head may already sit in the reader's buffer (they arrived in the same segment); the
+    frame channel must still see them, i.e. nothing between the head parser and frames_from_stream may drop the read-ahead."""
+    from values import Stream
+    label = 'C12/inline-frame-channel/bytes-buffered-behind-the-head-reach-the-frame-reader'
+    ck.plans.append(_handover_replay_plan)
+    for which in ('h11c_connect', 'FrameChannelCallback::on_connect'):
+        if which == 'h11c_connect':
+            fn = ck.find(lambda: ck.db.free('h11c_connect'), 'h11c_connect')
+        else:
+            fn = ck.find(lambda: ck.db.method('FrameChannelCallback', 'on_connect', trait='ContextCallback'), which)
+        if fn is None:
+            continue
+        ex = ck.engine(loop_bound=4, call_depth=8)
+        ex.benign_havoc = re.compile(r'.')
+        ex.no_inline = [re.compile(r'HttpRequest|HttpResponse::read_from|frames_from_stream|Context::')]
+        st = State()
+        inp = Bytes.symbolic('sent_behind_the_head', 'in')
+        ex.assume(st, z3.ULE(inp.len, BV(4, 64)))
+        scell = st.alloc(Stream('peer', inp))
+        vn = ex.si.enums['Feature']
+
+        def frames_from_stream(ctx):
+            ctx.st.trace.append(('frames_from_stream',))
+            return Opaque('FrameIO', 'frames')
+        resp = Agg('HttpResponse', {0: Bytes.symbolic('ver', 'string'), 1: Int(BV(200, 16), 16), 2: Bytes.symbolic('status', 'string'), 3: Opaque('Vec<(String, String)>', 'headers')})
+
+        @CA.awaiter('resp200')
+        def _aw(ctx, fut, resp=resp):
+            return C.mk_result(ctx.ex, ok=resp)
+        for rx, f in ((r'frames_from_stream::<', frames_from_stream), (r'HttpRequest::write_to$', lambda ctx: Future('sym_result', ['w'])),
+                      (r'HttpResponse::write_to$', lambda ctx: Future('sym_result', ['w'])),
+                      (r'HttpResponse::read_from$', lambda ctx: Future('resp200', [])),
+                      (r'HttpResponse::header$', lambda ctx: Ref(ctx.st.alloc(Bytes.from_py(b'7', 'str')), ())),
+                      (r'Context::feature$', lambda ctx: Agg('Feature', {}, vn.index('UdpForward'), {}, vn)),
+                      (r'Context::extra$', lambda ctx: C.mk_option(ctx.ex, Ref(ctx.st.alloc(Bytes.symbolic('extra', 'str')), ()))),
+                      (r'Context::take_client_stream$', lambda ctx: Ref(scell, ())),
+                      (r'Context::set_server_stream$|Context::set_server_frames$|Context::set_client_frames$', lambda ctx: ctx.args[0])):
+            ex.overrides.append((re.compile(rx), f))
+        ex.inputs = {'sent_behind_the_head': inp}
+        if which == 'h11c_connect':
+            args = [Ref(scell, ()), Ref(st.alloc(Opaque('RwLock<Context>', 'ctx')), ()), Opaque('SocketAddr', 'l'), Opaque('SocketAddr', 'r'),
+                    Ref(st.alloc(Bytes.from_py(b'inline', 'str')), ()), Opaque('FrameFn', 'ff')]
+        else:
+            me = Agg('FrameChannelCallback', {0: Int(z3.BitVec('session_id', 32), 32), 1: Bool(z3.BoolVal(True))})
+            args = [Ref(st.alloc(me), ()), Ref(st.alloc(Opaque('context::Context', 'ctx')), ())]
+        outs = run_async(ex, st, fn, args)
+        reached = 0
+        for o, r in outs:
+            if o.status != 'returned' or ('frames_from_stream',) not in o.trace:
+                continue
+            reached += 1
+            lost = [e for e in o.trace if e[0] == 'read-ahead-discarded']
+            if not lost:
+                ex.prove(o, label, z3.BoolVal(True))
+            for e in lost:
+                ex.prove(o, label, e[2] == BV(0, 64))
+        if not reached:
+            ck.add('C12/inline-frame-channel/%s/reachability' % which, 'vacuous', 'no path hands the stream to frames_from_stream')
+        for f in ex.findings:
+            if not hasattr(f, 'target'):
+                f.target = 'handover ' + which
+        ck.absorb(ex, 'handover ' + which, [o for o, _ in outs])
+    ck.bounds['inline-frame-channel'] = 'h11c_connect (upstream replied 200, UDP feature, inline channel) and FrameChannelCallback::on_connect (inline): any read-ahead 0..4 bytes'
+
+
+def _handover_replay_plan(ob):
+    if not (ob.target or '').startswith('handover ') or not ob.label.startswith('C12/inline-frame-channel/'):
+        return None
+    # head and one whole frame delivered in ONE segment: the frame must come out of the frame channel
+    return 'h11c', {'driver': 'handover', 'args': {'side': 'connect' if 'h11c_connect' in ob.target else 'listener'}}, lambda o: o.get('frame_received') is False
